@@ -54,6 +54,14 @@ func shardIndex() (int, int) {
 	return i, n
 }
 
+// repoRoot is the tree under test (its example scripts serve as corpus).
+func repoRoot() string {
+	if r := os.Getenv("VERIF_REPO"); r != "" {
+		return r
+	}
+	return "/repo"
+}
+
 func verifRoot() string {
 	if r := os.Getenv("VERIF_ROOT"); r != "" {
 		return r
